@@ -5,6 +5,7 @@ CONSTANTS
   NFlush = 1
   SortedPins = TRUE
   ReadsPerReader = 2
+  CallbackYields = 0
 SPECIFICATION SSpec
 INVARIANTS ReadsOneVersion NoLostUpdate FlushOrder
 CONSTRAINT Emit
